@@ -1,3 +1,4 @@
 import CoapVerif.Props.C19
 import CoapVerif.Props.C20
 import CoapVerif.Props.C07
+import CoapVerif.Props.C08
